@@ -7,8 +7,10 @@ import (
 	"encoding/json"
 	"errors"
 	"fmt"
+	"io"
 	"math"
 	"math/big"
+	"net/http"
 	"reflect"
 	"sort"
 	"strconv"
@@ -18,6 +20,7 @@ import (
 	"verifharness/drv"
 	"verifharness/emit"
 
+	httphelper "github.com/zitadel/oidc/v3/pkg/http"
 	"github.com/zitadel/oidc/v3/pkg/oidc"
 	"golang.org/x/text/language"
 )
@@ -953,6 +956,9 @@ func (g gen) jsonVal(depth int) any {
 }
 
 func (g gen) key() string {
+	if g.r.Chance(1, 6) {
+		return drv.Pick(g.r, wireKeys)
+	}
 	return drv.Pick(g.r, []string{"role", "groups", "tenant", "urn:zitadel:iam:org", "x", "", "a b", "Z", "zz", "iss_", "custom.claim", "ünï", "n"})
 }
 
@@ -1513,6 +1519,68 @@ var altForms = []struct {
 	{"obj-addr", map[string]any{"country": "CH", "locality": 5.0}}, {"obj-addr-ok", map[string]any{"country": "CH", "formatted": "x", "other": true}},
 }
 
+// ---------- the round trip over the wire ----------
+
+// wireDecode reads a 200 application/json response with body b the way the
+// library's clients do (rs.Introspect, rp.Userinfo, token / discovery calls all
+// end in pkg/http HttpRequest): no socket, the transport hands the bytes over.
+// A claims document is a claims document whichever way it arrives: the result
+// has to be what json.Unmarshal gives.
+type cannedTransport struct{ body []byte }
+
+func (t cannedTransport) RoundTrip(req *http.Request) (*http.Response, error) {
+	return &http.Response{Status: "200 OK", StatusCode: 200, Proto: "HTTP/1.1", ProtoMajor: 1, ProtoMinor: 1,
+		Header:        http.Header{"Content-Type": {"application/json"}},
+		Body:          io.NopCloser(strings.NewReader(string(t.body))),
+		ContentLength: int64(len(t.body)), Request: req}, nil
+}
+
+func wireDecode(b []byte, dst any) error {
+	req, err := http.NewRequest(http.MethodGet, "https://op.example.com/userinfo", nil)
+	if err != nil {
+		return err
+	}
+	req.Header.Set("authorization", "Bearer at")
+	return httphelper.HttpRequest(&http.Client{Transport: cannedTransport{b}}, req, dst)
+}
+
+// wireKeys: member names of the protocol's OTHER response documents (error
+// response, authorization response, token response, introspection): as custom
+// claims they are data like any other.
+var wireKeys = []string{"error", "error_description", "error_uri", "state", "code", "active", "access_token", "token_type",
+	"expires_in", "id_token", "refresh_token", "scope", "status", "message"}
+
+func zeroVals(ti tyInfo, set map[string]fv) []fv {
+	vals := make([]fv, len(ti.Schema))
+	for i, f := range ti.Schema {
+		vals[i] = fv{kind: f.Kind}
+		if v, ok := set[f.Name]; ok && v.kind == f.Kind {
+			vals[i] = v
+		}
+	}
+	return vals
+}
+
+// wireSweep: every type x every wire key (as a custom claim holding a string, a
+// number or the empty string), marshalled and read back through the client
+// decoder.
+func wireSweep(w *emit.Writer) {
+	forms := []struct {
+		tag string
+		v   any
+	}{{"str", "none"}, {"str-code", "invalid_request"}, {"num", 5}, {"str-empty", ""}, {"obj", map[string]string{"error": "x"}}}
+	n := 0
+	for _, ti := range types {
+		for _, k := range wireKeys {
+			for _, fi := range []int{n % 2, 2 + n%3} {
+				roundCaseWith(w, ti, zeroVals(ti, map[string]fv{"sub": {kind: "KStr", s: "alice"}, "iss": {kind: "KStr", s: "https://issuer.example.com"}}),
+					map[string]any{k: forms[fi].v, "role": "r"}, []string{"custom=set", "collide=wire", "via=http", "wirekey=" + k, "wireform=" + forms[fi].tag})
+			}
+			n++
+		}
+	}
+}
+
 // ---------- look-alike members ----------
 
 // aliasTable: names other providers / older drafts / sloppy callers use for
@@ -1674,6 +1742,7 @@ func codecCases(w *emit.Writer, r drv.Rand, n int, thorough bool) {
 	}
 	sizeCases(w, thorough)
 	aliasSweep(w)
+	wireSweep(w)
 	for i := 0; i < n; i++ {
 		ti := types[i%len(types)]
 		switch (i / len(types)) % 5 {
@@ -1696,6 +1765,9 @@ func roundCase(w *emit.Writer, g gen, ti tyInfo) {
 	vals, claims, tags := g.value(ti)
 	if g.r.Chance(1, 4) {
 		tags = append(tags, "seq=twice")
+	}
+	if g.r.Chance(1, 3) {
+		tags = append(tags, "via=http")
 	}
 	roundCaseWith(w, ti, vals, claims, tags)
 }
@@ -1727,6 +1799,7 @@ func roundCaseWith(w *emit.Writer, ti tyInfo, vals []fv, claims map[string]any, 
 			seq = append(seq, t)
 		}
 	}
+	viaHTTP := hasTag(tags, "via=http")
 	var in reflect.Value
 	pb := drv.Catch(func() { in = build(ti, vals, claims) }) // oidc.NewLocale
 	for rep := 1; rep <= reps; rep++ {
@@ -1740,7 +1813,11 @@ func roundCaseWith(w *emit.Writer, ti tyInfo, vals []fv, claims map[string]any, 
 				bytes, merr = json.Marshal(in.Interface())
 				if merr == nil {
 					back = reflect.New(ti.Type)
-					uerr = json.Unmarshal(bytes, back.Interface())
+					if viaHTTP {
+						uerr = wireDecode(bytes, back.Interface())
+					} else {
+						uerr = json.Unmarshal(bytes, back.Interface())
+					}
 				}
 			})
 		}
